@@ -45,6 +45,9 @@ type Config struct {
 	MaxPackageLen int
 	Extra         map[string]string // further keys of /tars/application/server
 	Servants      map[string]ServantDef // per-object dispatcher/implementation (overrides Start's arguments)
+	// client section (the process's communicators): 0 / nil = the defaults below
+	AsyncInvokeTimeout int               // ms, default 3000
+	ClientExtra        map[string]string // further keys of /tars/application/client (e.g. objqueuemax)
 	Dir           string            // scratch dir (config file, logs); created if empty
 }
 
@@ -81,7 +84,15 @@ func (c *Config) render() string {
 	for i, a := range c.Adapters {
 		fmt.Fprintf(&sb, "<App.Server.Adapter%d>\nendpoint=%s -h %s -p %d -t 60000\nservant=%s\nprotocol=tars\nthreads=2\n</App.Server.Adapter%d>\n", i, a.Proto, a.Host, a.Port, a.Obj, i)
 	}
-	sb.WriteString("</server>\n<client>\nasync-invoke-timeout=3000\n</client>\n</application>\n</tars>\n")
+	ait := 3000
+	if c.AsyncInvokeTimeout > 0 {
+		ait = c.AsyncInvokeTimeout
+	}
+	fmt.Fprintf(&sb, "</server>\n<client>\nasync-invoke-timeout=%d\n", ait)
+	for k, v := range c.ClientExtra {
+		fmt.Fprintf(&sb, "%s=%s\n", k, v)
+	}
+	sb.WriteString("</client>\n</application>\n</tars>\n")
 	return sb.String()
 }
 
